@@ -2,7 +2,7 @@
 from specs import snapshot, loc
 
 LEVEL = 'proof'
-UNITS = [snapshot.worker_unit('C07')]
+UNITS = [snapshot.worker_unit('C07'), snapshot.tail_unit('C07')]
 BOUNDED = []
 TRUSTED = []
 ASSUMPTIONS = []
